@@ -125,15 +125,16 @@ def readd_history():
 
 
 def rename_model_history():
-    """a model renamed (its table kept) in the first version, ordinary changes of another model afterwards: the
+    """a model that refers to itself, renamed (its table kept) in the first version, ordinary changes of another model afterwards: the
     rename stays in the app's history for ever, and an up-to-date database must still need nothing"""
-    def fld(name, t, **attrs):
-        return {'name': name, 'type': t, 'attrs': attrs, 'related': None}
+    def fld(name, t, related=None, **attrs):
+        return {'name': name, 'type': t, 'attrs': attrs, 'related': related}
 
     def mdl(name, fields):
         return {'name': name, 'table': 'vapp_%s' % name.lower(), 'unique_together': [], 'index_together': [],
                 'indexes': [], 'constraints': [], 'fields': [fld('id', 'AutoField', primary_key=True)] + fields}
-    spec0 = {'apps': [{'id': 'vapp', 'models': [mdl('Alpha', [fld('a', 'IntegerField')]),
+    spec0 = {'apps': [{'id': 'vapp', 'models': [mdl('Alpha', [fld('a', 'IntegerField'),
+                                                               fld('parent', 'ForeignKey', 'vapp.Alpha', null=True)]),
                                                  mdl('Beta', [fld('b', 'CharField', max_length=10)])]}]}
     evos = [[{'t': 'RenameModel', 'old': 'Alpha', 'new': 'Gamma', 'db_table': 'vapp_alpha'}],
             [{'t': 'AddField', 'model': 'Beta', 'field': 'y', 'ftype': 'IntegerField', 'initial': None,
@@ -457,6 +458,9 @@ def run(ctx):
         ok, err = drive(how)
         if not ok:
             ctx.count('fresh_failed')
+            if tries <= len(SCRIPTED) * 3:
+                # the scripted histories are valid by construction: a fresh install of their last version works
+                ctx.fail(None, 'a fresh install of the last version of a scripted history fails (%s): %s' % (how, err), rep)
             continue
         fresh = final_state()
         results = {}
